@@ -466,6 +466,49 @@ def check_alpha(F, rep, S):
                 rep.fail("ALPHA", "alpha:" + name, "uninterpretable: %s" % ex, F.loc(b))
 
 
+def check_with_alpha_impls(F, rep, S):
+    """ALPHA (per colour type): attaching alpha to a bare colour is the struct literal Alpha { color: self, alpha }, removing it from a
+    bare colour is the identity, and splitting a bare colour yields (self, full opacity); the provided methods opaque() / transparent()
+    attach max_intensity() / zero()."""
+    n = 0
+    for im in F.find_impls(trait="alpha::WithAlpha"):
+        if (im.get("self_adt") or "").endswith("alpha::alpha::Alpha"):
+            continue
+        key = im["self_s"].split("<")[0].split("::")[-1]
+        for name in ("with_alpha", "without_alpha", "split"):
+            b = F.impl_method(im, name)
+            if b is None:
+                rep.fail("ANCHOR", "alpha:%s[%s]" % (name, key), "method missing")
+                continue
+            n += 1
+            try:
+                args = S.args(b, ["c", "alpha"])
+                v, _ = S.ev.eval_body(b, args)
+                c = args[0]
+                if name == "with_alpha":
+                    exp = Struct("alpha::alpha::Alpha", {"color": c, "alpha": args[1]})
+                    check_value(rep, "ALPHA", "alpha:%s[%s]" % (name, key), S, b, v, exp)
+                elif name == "without_alpha":
+                    check_value(rep, "ALPHA", "alpha:%s[%s]" % (name, key), S, b, v, c)
+                else:
+                    ok = isinstance(v, Tuple) and len(v.items) == 2 and sym.val_eq(v.items[0], c) and re.match(r"^stimulus::Stimulus::max_intensity<\w+>$", repr(v.items[1])) is not None
+                    rep.ob("ALPHA", "alpha:%s[%s]" % (name, key), ok, repr(v)[:160], F.loc(b), nontrivial=False)
+            except (Opaque, poly.TooBig, KeyError) as ex:
+                rep.fail("ALPHA", "alpha:%s[%s]" % (name, key), "uninterpretable: %s" % ex, F.loc(b))
+    rep.floor("WithAlpha methods of bare colours", n, 75)
+    for name, want in (("opaque", r"^stimulus::Stimulus::max_intensity<\w+>$"), ("transparent", r"^0$")):
+        try:
+            b = F.fn("alpha::WithAlpha::" + name)
+            S2 = Session(F, no_inline={"alpha::WithAlpha::with_alpha"})
+            v, _ = S2.ev.eval_body(b, S2.args(b, ["c"]))
+            from .c08 import _find_apps
+            aps = _find_apps(v, lambda nm: "with_alpha" in nm) if not isinstance(v, Struct) else []
+            ok = len(aps) == 1 and repr(aps[0].args[0]) == "c" and re.match(want, repr(aps[0].args[1])) is not None if aps else False
+            rep.ob("ALPHA", "alpha:" + name, ok, repr(v)[:200], F.loc(b))
+        except (facts.AnchorMissing, Opaque, poly.TooBig) as ex:
+            rep.fail("ALPHA", "alpha:" + name, "uninterpretable: %s" % ex)
+
+
 def run(F, rep, tier="quick", extra=None, only=None):
     rep.trusted += ["rustc name resolution / type check (resolved callees of derive output)", "operator table of rules/sym.py",
                     "axioms cbrt(x)^3=x, sqrt(x)^2=x; cbrt strictly monotone (threshold rewriting)", "hand-edge and TypeId guard tables confirmed by reading (rules/c01.py)"]
@@ -487,4 +530,5 @@ def run(F, rep, tier="quick", extra=None, only=None):
     consts.check_transfer_functions(F, rep, S)
     from . import aliasrule
     aliasrule.check(F, rep, "C01", 39)
+    check_with_alpha_impls(F, rep, Session(F))
     return {"level": "other"}
